@@ -116,7 +116,11 @@ def make_case(g, draw, pad=True):
 
 
 def make_reject(g, draw):
-    k = draw(4)
+    k = draw(5)
+    if k == 4:
+        # Unicode look-alikes of a valid code (superscript digits, full-width letters, long s ...): whatever the pattern
+        # says about them - a few ARE codes, `\d` admits every decimal digit - normalisation must agree with it
+        return {'s': codegen.lookalikes(g.generate(draw), draw), 'lookalike': True}
     if k == 0:
         junk = ['', ' ', 'DNF', '100m', 'HJ1', '4x', 'x100', 'SP7.26', '1.5K5', 'MILES', 'sst', 'SWT 7', 'DT1.5', '60h84', '--']
         return {'s': junk[draw(len(junk))]}
@@ -152,6 +156,8 @@ def do_case(ctx, case):
             ctx.nontrivial(case['s'], case if len(ctx.nt_keys) % 3000 == 17 else None)
     else:
         ctx.label('rejected')
+    if case.get('lookalike'):
+        ctx.label('unicode-lookalike-' + ('accepted' if codes.PAT_EVENT_CODE.match(core) else 'rejected'))
 
 
 def shrink(bucket):
